@@ -448,11 +448,13 @@ func runRestart(ctx *runner.Ctx, k cs, h *honest, w [32]byte) {
 func mutateBytes(data []byte, mut string) []byte {
 	p := strings.Split(mut, ":")
 	var x, y int
+	var y64 uint64
 	if len(p) > 1 {
 		fmt.Sscan(p[1], &x)
 	}
 	if len(p) > 2 {
-		fmt.Sscan(p[2], &y)
+		fmt.Sscan(p[2], &y64)
+		y = int(y64)
 	}
 	out := append([]byte(nil), data...)
 	switch p[0] {
@@ -472,7 +474,7 @@ func mutateBytes(data []byte, mut string) []byte {
 			_, n := binary.Uvarint(out[x:])
 			if n > 0 {
 				var b [10]byte
-				m := binary.PutUvarint(b[:], uint64(y))
+				m := binary.PutUvarint(b[:], y64)
 				out = append(append(append([]byte(nil), out[:x]...), b[:m]...), out[x+n:]...)
 			}
 		}
@@ -807,11 +809,18 @@ func work(ctx *runner.Ctx) {
 				for _, v := range []int{0, 1, 4, 6, n, n + 1, 1<<20 + 1} {
 					add(obj, fmt.Sprintf("varint:10:%d", v))
 				}
+				// lengths at the edges of the 32- and 64-bit integer types
+				for _, v := range []uint64{1<<31 - 1, 1 << 31, 1<<32 - 1, 1 << 32, 1<<62 + 1, 1<<63 - 1, 1 << 63, 1<<64 - 1} {
+					add(obj, fmt.Sprintf("varint:10:%d", v))
+				}
 				add(obj, "nonminimal:10")
 				if obj == "GS" || obj == "ES" {
 					// inner curve-name length
 					_, m := binary.Uvarint(h.enc[obj][10:])
 					for _, v := range []int{0, 4, 6, 200} {
+						add(obj, fmt.Sprintf("varint:%d:%d", 10+m, v))
+					}
+					for _, v := range []uint64{1 << 31, 1 << 32, 1 << 63, 1<<64 - 1} {
 						add(obj, fmt.Sprintf("varint:%d:%d", 10+m, v))
 					}
 					add(obj, fmt.Sprintf("nonminimal:%d", 10+m))
